@@ -3,7 +3,8 @@ open Pynenc.C16
 #print axioms mem_and_match_eq_sql_joins
 #print axioms existingMem_eq_existing
 #print axioms page_mem_eq_sql
-#print axioms page_negative_diverges
+#print axioms page_all_integers_agree
+#print axioms page_negative_diverged_before_repair
 #print axioms page_is_sorted_slice_of_candidates
 #print axioms count_eq_length_all
 #print axioms filter_by_status_spec
